@@ -290,7 +290,10 @@ let predict (c : string) (obs : string) : string * string * bool =
       let has t = List.exists (fun (x, _) -> x = t) before in
       let all_nil = List.for_all (fun p -> has (Printf.sprintf "%d.fz" p) && has (Printf.sprintf "E.%d" p))
                       (List.init npools (fun p -> p)) in
-      let sure_cancelled = i0 >= 0 && d_idx >= 0 && i1 < d_idx in
+      (* recv<k> plans: the caller's cancel() is made, and has returned (X1), inside the engine's own log call of the
+         E.<p> entry, i.e. after the receive and before the look at ctx.Done that decides the result: cancelled for sure *)
+      let is_recv = String.length cancel > 4 && String.sub cancel 0 4 = "recv" in
+      let sure_cancelled = i0 >= 0 && d_idx >= 0 && (i1 < d_idx || (is_recv && d_idx < i0 && i1 < ret_idx)) in
       let sure_not_cancelled = i0 < 0 || i0 > ret_idx in
       let all_fails = List.filter_map (fun (_, f) -> f) parsed @ List.filter_map src_fail toks in
       let o = { o_res = (match res_of_string r_obs with Some r -> r | None -> RNil);
